@@ -30,7 +30,7 @@ def build():
         J.append(Job(name or ("E1/" + fn), "E1", harness, "h_" + fn, props, enforce=fn, replace=replace,
                      defs=["VC_HARNESS_OBJECTS"] + list(defs), loop_contracts=loop, cbmc_args=args, timeout=timeout, mem_gb=mem, tier=tier,
                      note=note, expect_fail=list(expect_fail) + ["vacuity", "vacuity-true", "vacuity-false"],
-                     portfolio=fn in PORTFOLIO))
+                     portfolio=fn in PORTFOLIO, witness_defs=["VC_SMALL_WITNESS"] if fn == "_cmp_name" else []))
 
     import copy as _copy
 
@@ -50,8 +50,11 @@ def build():
     e1("_consume", {"C01": "*", "C02": "*", "C09": "*", "C18": "*", "C16": "*"})
     e1("_parse_integer", {"C02": "*", "C03": "*", "C05": "*", "C10": "*", "C18": "*", "C01": "*", "C16": "*"},
        unwind=9, note="width loop <= 8 iterations by type: --unwind 9 with unwinding assertions is complete")
-    e1("_cmp_name", {"C02": "*", "C07": "*", "C18": "*", "C03": "*", "C01": "*", "C10": "*"}, defs=["VC_STUB_MEMCMP"], replace=["vc_memcmp"], unwind=8,
+    e1("_cmp_name", {"C02": "*", "C07": "*", "C18": "*", "C03": "*", "C01": "*", "C10": "*"}, defs=["VC_STUB_MEMCMP"], replace=["vc_memcmp"], unwind=9,
        note="memcmp replaced by its assumed C11 contract (unsigned bytes, first difference decides); --unwind only matters if a change introduces a loop")
+    J.append(Job("E3/cmp_name-direct/len<=8", "E3", HP, "h__cmp_name_direct", {"C07": "*", "C02": "*", "C03": "*", "C10": "*", "C18": "*"},
+                 defs=["VC_HARNESS_OBJECTS"], cbmc_args=["--unwind", "10", "--unwinding-assertions"], timeout=600, mem_gb=4,
+                 note="BOUNDED: names of at most 8 bytes each, CBMC's built-in memcmp, compared with the bytewise definition"))
     e1("_process_one", {"C01": "*", "C02": "*", "C03": "*", "C08": "*", "C10": "*", "C16": "*", "C18": "*"}, unwind=9, timeout=900,
        note="_consume, _parse_integer, _check_boundary inlined (real bodies); integer loop <= 8 iterations")
     e1("binson_parser_reset", {"C01": "*", "C02": "*", "C12": "*", "C18": "*"}, timeout=600,
